@@ -8,6 +8,7 @@ import RapidModel.Persist
 import RapidModel.Passes
 import RapidModel.Float
 import RapidModel.Generated.Translated
+import RapidModel.SrcRec
 
 namespace Rapid.Driver
 open Rapid
@@ -99,25 +100,6 @@ def restLen : Src → Nat
   computes.  An `abort` token (a group left open by a panic) has no call in the source. -/
 
 def srcGI (g : Rapid.Translated.groupInfo) : GI := ⟨g.label, g.standalone, g.begin.toInt.toNat, g.end_.toInt, g.discard⟩
-
-/-- replay the recording calls with the translated source functions; `st`: indices of the open groups -/
-def srcRecGo : List Tok → List UInt64 → List Rapid.Translated.groupInfo → List Int64 → Option (List UInt64 × List Rapid.Translated.groupInfo)
-  | [], d, g, _ => some (d, g)
-  | .w u :: ts, d, g, st =>
-    match Rapid.Translated.recordedBits_record d 0 true u with
-    | .ok (d', _, _) => srcRecGo ts d' g st
-    | .error _ => none
-  | .opn l s :: ts, d, g, st =>
-    match Rapid.Translated.recordedBits_beginGroup d g 0 true l s with
-    | .ok (i, d', g', _, _) => srcRecGo ts d' g' (i :: st)
-    | .error _ => none
-  | .cls dis :: ts, d, g, i :: st =>
-    -- (a `cls false` token exists only for a group that used data: the assertion of endGroup holds)
-    match Rapid.Translated.recordedBits_endGroup d g 0 true i dis with
-    | .ok (d', g', _, _) => srcRecGo ts d' g' st
-    | .error _ => none
-  | .cls _ :: ts, d, g, [] => srcRecGo ts d g []
-  | .abort :: ts, d, g, st => srcRecGo ts d g st.tail
 
 /-- "ok" when the source's recording functions and the source's `prune` agree with the model on these tokens -/
 def srcPruneCheck (toks : List Tok) (kept : List UInt64) : String :=
